@@ -322,6 +322,8 @@ def gen_case(rng, big=False):
         case.update(op="kruskal", kind="edge", root=rng.randrange(nv), avoid_boundary=rng.random() < 0.35, weights=w)
     # every accessor is read twice, in an order chosen here
     case["read_order"] = rng.randrange(12)
+    # the starting element in every integer representation (python int, numpy.int32/int64/uint8)
+    case["root_repr"] = rng.choice(ROOT_REPRS)
     # multi-step scenarios: a persistent geometric attribute computed BEFORE the vertices move to their final place
     # (mesh["V"] is the final geometry, mesh["pre_V"] the one the mesh is built with), or a pre-existing attribute
     # with a colliding name holding arbitrary values
@@ -346,6 +348,9 @@ def gen_case(rng, big=False):
     return case
 
 
+ROOT_REPRS = ["int", "int", "int64", "int32", "uint8"]
+
+
 def gen_session(rng):
     """several objects in one interpreter session: shared and different meshes, with / without the optional arguments,
     the caller adding ids to the exclusion sets of earlier objects between constructions"""
@@ -365,6 +370,7 @@ def gen_session(rng):
         omit = rng.random() < 0.5
         dens = rng.choice([0.1, 0.3, 0.6])
         sub = {"mesh_id": mid, "what": what, "read_order": rng.randrange(12), "calls": rng.choice([1, 1, 2]),
+               "root_repr": rng.choice(ROOT_REPRS),
                "omit_optional": omit, "excl": None}
         if what.endswith("_tree"):
             kind = what.split("_")[0]
@@ -390,8 +396,9 @@ def gen_session(rng):
             steps.append({"do": "mutate", "obj": rng.randrange(nobj),
                           "ids": sorted(rng.sample(range(max(max_eid, max_fid)), min(max(max_eid, max_fid), rng.choice([1, 3, 8, 20]))))})
         # ... or re-roots an earlier tree / adds cuts to it and calls compute() again
-        if rng.random() < 0.35:
+        if rng.random() < 0.5:
             steps.append({"do": "reconf", "obj": rng.randrange(nobj), "root": rng.randrange(1000), "read_order": rng.randrange(12),
+                          "spelling": rng.choice(["call", "call", "compute"]), "root_repr": rng.choice(ROOT_REPRS),
                           "ids": sorted(rng.sample(range(max(max_eid, max_fid)), min(max(max_eid, max_fid), rng.choice([0, 1, 4, 10]))))})
     return {"op": "session", "kind": "session", "what": "session", "mesh": meshes[0], "meshes": meshes, "steps": steps}
 
@@ -420,8 +427,9 @@ def expand_sessions(cases, obs):
                 if r.get("skipped"):
                     continue
                 cc = dict(current[st["obj"]])
-                cc.update(root=r["update"]["root"], excl=r["update"]["excl"], calls=1, omit_optional=False,
-                          what=cc["what"] + "+reconfigured")
+                cc.update(excl=r["update"]["excl"], calls=1, omit_optional=False, what=cc["what"] + "+reconfigured")
+                if "root" in r["update"]:
+                    cc["root"] = r["update"]["root"]
                 current[st["obj"]] = cc
             cc = dict(cc)
             cc["session"] = {"meshes": c["meshes"], "steps": c["steps"], "object": k}
@@ -454,7 +462,10 @@ def all_roots_cases(rng, count):
             else:
                 out.append({"mesh": mesh, "what": what + "_tree", "op": "tree", "kind": what, "root": r,
                             "avoid_boundary": ab, "excl": None})
-    return out[:count]
+    out = out[:count]
+    for k, c in enumerate(out):
+        c["root_repr"] = ROOT_REPRS[k % len(ROOT_REPRS)]
+    return out
 
 
 # ====================================================================== encoders (case + observation -> Gallina)
@@ -727,6 +738,8 @@ def oracle(case, res):
             return None if res["err"] is not None else "a root that is not an element was accepted"
         if res["err"] is not None:
             return "valid root rejected with " + res["err"]
+        if res.get("root") != case["root"]:
+            return "the tree is rooted at %s, the starting element given was %s (%s)" % (res.get("root"), case["root"], case.get("root_repr", "int"))
     if res.get("unstable"):
         return "reading the public tables twice / in another order changes the answers: " + "; ".join(res["unstable"][:2])
     adj = oracle_graph(case, res)
@@ -944,7 +957,7 @@ def shrink_session(case, msg):
 
 SLUGS = [("implementation crashed", "crash"), ("reading the public tables twice", "unstable-reads"),
          ("a root that is not an element was accepted", "bad-root-accepted"), ("valid root rejected", "valid-root-rejected"),
-         ("no starting element given", "drawn-root"), ("parent/children tables have the wrong length", "table-length"),
+         ("no starting element given", "drawn-root"), ("the tree is rooted at", "wrong-root"), ("parent/children tables have the wrong length", "table-length"),
          ("the root has a parent", "root-has-parent"), ("reached element", "reached-without-parent"),
          ("tree edge", "inadmissible-edge"), ("parents of", "cycle-or-dangling"), ("is at depth", "depth-not-hop-distance"),
          ("outside the root's component", "parent-outside-component"), ("children[", "children-not-inverse"),
@@ -974,6 +987,10 @@ def classify(case, msg):
         inp.append("recompute")
     if case.get("session"):
         inp.append("session" + ("-defaults" if case.get("omit_optional") else ""))
+    if "+reconfigured" in case.get("what", ""):
+        inp.append("reconfigured")
+    if case.get("root_repr", "int") != "int" and case.get("root") is not None:
+        inp.append("root-as-" + case["root_repr"])
     if case["op"] in ("tree", "kruskal"):
         inp.append("root-none" if root is None else ("root-negative" if root < 0 else "root"))
     if case["op"] == "kruskal":
@@ -1110,9 +1127,11 @@ def run(ctx):
         if c["op"] in ("tree", "kruskal") and c.get("root") is not None and c["root"] < 0:
             ctx.count("negative root")
         ctx.count("compute() called %d time(s)" % c.get("calls", 1))
+        if c["op"] in ("tree", "kruskal") and c.get("root") is not None:
+            ctx.count("root given as " + c.get("root_repr", "int"))
         ctx.case_seen([c["mesh"]["V"], c["mesh"]["E"], c["mesh"]["F"], c["mesh"]["C"], c["op"], c["kind"], c.get("root"),
                        c.get("excl"), c.get("avoid_boundary"), c.get("weights") if isinstance(c.get("weights"), str) else "custom",
-                       c.get("pre"), c["mesh"].get("pre_V"), c.get("read_order"), c.get("calls", 1), c.get("omit_optional"),
+                       c.get("pre"), c["mesh"].get("pre_V"), c.get("read_order"), c.get("calls", 1), c.get("omit_optional"), c.get("root_repr"),
                        json.dumps(c["session"]["steps"]) if c.get("session") else None],
                       nontrivial=nontriv,
                       sample={"op": c["what"], "mesh": c["mesh"]["shape"], "root": c.get("root"),
